@@ -4,7 +4,10 @@ package seqdrv
 
 import (
 	"context"
+	"errors"
 	"fmt"
+	"strings"
+	"sync/atomic"
 	"regexp"
 	"strconv"
 	"time"
@@ -77,6 +80,9 @@ type RetJ struct {
 	IsErr  bool     `json:"iserr"`
 	Panic  string   `json:"panic,omitempty"`
 	Nested []string `json:"nested"`
+	ErrHas bool     `json:"errhas"`
+	ErrInt int      `json:"errinternal"`
+	Err    string   `json:"err,omitempty"`
 	Views  *Views   `json:"views,omitempty"`
 }
 
@@ -173,34 +179,59 @@ func scriptOf(call *gen.Call) *rec.Script {
 		sc.Nest[k] = append(sc.Nest[k], rec.NestedMut{Type: n.Type, Called: n.Called})
 	}
 	for _, p := range call.Panic {
-		sc.Panic[rec.SKey(p[0].(int), p[1].(rec.HName))] = p[2]
+		var v any = p[2]
+		if sv, ok := v.(string); ok && strings.HasPrefix(sv, "err:") {
+			v = errors.New(sv[4:])
+		}
+		sc.Panic[rec.SKey(p[0].(int), p[1].(rec.HName))] = v
+	}
+	for _, p := range call.Stall {
+		ch := make(chan struct{})
+		sc.Stall[rec.SKey(p[0].(int), p[1].(rec.HName))] = ch
+		sc.AllStalls = append(sc.AllStalls, ch)
 	}
 	return sc
 }
 
+// CallDeadline bounds a public call; a call that does not return in time is
+// reported as "hang" (the goroutine is abandoned).
+var CallDeadline = 4 * time.Second
+
 // DoCall executes one public call and returns its result string; a panic
-// escaping the call is caught and reported.
+// escaping the call is caught and reported, a call that never returns is a hang.
 func DoCall(m *am.Machine, call *gen.Call) (res string, pan string) {
-	defer func() {
-		if r := recover(); r != nil {
-			pan = fmt.Sprint(r)
-			res = "panic"
+	type out struct{ res, pan string }
+	ch := make(chan out, 1)
+	go func() {
+		var o out
+		defer func() {
+			if r := recover(); r != nil {
+				o.pan = fmt.Sprint(r)
+				o.res = "panic"
+			}
+			ch <- o
+		}()
+		var rr am.Result
+		switch {
+		case call.Check && call.Type == "add":
+			rr = m.CanAdd(call.Called, nil)
+		case call.Check && call.Type == "remove":
+			rr = m.CanRemove(call.Called, nil)
+		case call.Type == "add":
+			rr = m.Add(call.Called, nil)
+		case call.Type == "remove":
+			rr = m.Remove(call.Called, nil)
+		case call.Type == "set":
+			rr = m.Set(call.Called, nil)
 		}
+		o.res = rec.ResStr(rr)
 	}()
-	var rr am.Result
-	switch {
-	case call.Check && call.Type == "add":
-		rr = m.CanAdd(call.Called, nil)
-	case call.Check && call.Type == "remove":
-		rr = m.CanRemove(call.Called, nil)
-	case call.Type == "add":
-		rr = m.Add(call.Called, nil)
-	case call.Type == "remove":
-		rr = m.Remove(call.Called, nil)
-	case call.Type == "set":
-		rr = m.Set(call.Called, nil)
+	select {
+	case o := <-ch:
+		return o.res, o.pan
+	case <-time.After(CallDeadline):
+		return "hang", ""
 	}
-	return rec.ResStr(rr), ""
 }
 
 // Run executes the case and returns the recorded lines (init, call, tx.., ret, ...).
@@ -212,24 +243,44 @@ func Run(c *gen.Case, o Opts) ([]any, error) {
 	}
 	defer m.Dispose()
 	index := gen.Index(c)
+	// ErrInternal reader: counts errors and releases stalled handlers once the
+	// timeout has been reported
+	var errInt atomic.Int64
+	go func() {
+		for range m.ErrInternal() {
+			errInt.Add(1)
+			r.ReleaseBlocked()
+		}
+	}()
 	lines := []any{init}
 	lines = append(lines, r.Take()...) // transitions caused by construction
 	for i := range c.Calls {
 		call := &c.Calls[i]
 		r.SetScript(scriptOf(call))
 		lines = append(lines, call)
+		errBefore := errInt.Load()
 		res, pan := DoCall(m, call)
+		r.ReleaseStalls()
 		lines = append(lines, r.Take()...)
 		ret := &RetJ{Ev: "ret", Res: res, Panic: pan,
 			Active: nz(m.ActiveStates(nil)),
 			Time:   append([]uint64{}, m.Time(nil)...),
 			Qtick:  m.QueueTick(), Qlen: int(m.QueueLen()), IsErr: m.IsErr(),
-			Nested: append([]string{}, r.NestedRes...)}
+			Nested: append([]string{}, r.NestedRes...),
+			ErrInt: int(errInt.Load() - errBefore)}
+		if e := m.Err(); e != nil {
+			ret.Err = e.Error()
+			for _, fp := range r.FiredPanics {
+				if strings.Contains(e.Error(), strings.TrimPrefix(fp, "err:")) {
+					ret.ErrHas = true
+				}
+			}
+		}
 		if o.Views {
 			ret.Views = SampleViews(m, index)
 		}
 		lines = append(lines, ret)
-		if pan != "" {
+		if pan != "" || res == "hang" {
 			break
 		}
 	}
